@@ -325,6 +325,11 @@ func (r *Run) FinishNoExit() int {
 	}
 	fmt.Printf("%s %s seed=%d: evaluations=%d distinct=%d violations=%d wall=%.1fs\n  observed:%s\n",
 		r.ID, Tier(), Seed(), r.evals, len(r.distinct), r.violations, time.Since(r.start).Seconds(), sb.String())
+	for _, f := range r.known {
+		if r.knownHits[f.Key] == 0 {
+			fmt.Printf("KNOWN-FINDING: property=%s %s [key=%s] (listed; not reproduced by the cases of this run)\n", r.ID, f.What, f.Key)
+		}
+	}
 	if r.violations > 0 {
 		return 1
 	}
